@@ -206,9 +206,46 @@ func (e *Exec) doAlloc(st *State, x *ssa.Alloc) {
 		return
 	}
 	key := cellKey(pt)
-	loc := &Loc{Key: key, Typ: pt, Ref: r, Local: true}
+	loc := &Loc{Key: key, Typ: pt, Ref: r, Local: true, WriteOnce: cellWriteOnce(x)}
 	st.cells[r] = e.zeroVal(pt)
 	fr.env[x] = Val{T: []string{r}, Typ: x.Type(), Loc: loc}
+}
+
+// cellWriteOnce: the variable cell is stored to at most once in its function
+// and never by a closure that captures it: capturing it cannot change it.
+func cellWriteOnce(a *ssa.Alloc) bool {
+	stores := 0
+	var visit func(v ssa.Value) bool
+	visit = func(v ssa.Value) bool {
+		refs := v.Referrers()
+		if refs == nil {
+			return false
+		}
+		for _, r := range *refs {
+			switch x := r.(type) {
+			case *ssa.Store:
+				if x.Addr == v {
+					stores++
+				} else {
+					return false // address stored somewhere
+				}
+			case *ssa.UnOp, *ssa.DebugRef:
+			case *ssa.MakeClosure:
+				fn := x.Fn.(*ssa.Function)
+				for i, b := range x.Bindings {
+					if b == v && i < len(fn.FreeVars) {
+						if !visit(fn.FreeVars[i]) {
+							return false
+						}
+					}
+				}
+			default:
+				return false
+			}
+		}
+		return true
+	}
+	return visit(a) && stores <= 1
 }
 
 func (e *Exec) zeroStruct(st *State, r string, t types.Type) {
@@ -568,6 +605,11 @@ func (e *Exec) makeInterface(st *State, x *ssa.MakeInterface) Val {
 		var sorts []string
 		for _, l := range ls {
 			sorts = append(sorts, l.Sort)
+		}
+		if len(ls) == 0 {
+			// zero-size values (struct{} keys): one box per type
+			payload = e.declare(sym("box0:"+typeKey(ct)), SInt)
+			return Val{T: []string{tag, payload}, Typ: x.Type()}
 		}
 		bf := e.fun(sym("box:"+typeKey(ct)), sorts, SInt)
 		payload = app(bf, v.T...)
